@@ -2523,6 +2523,12 @@ fn gen_c03(r: &mut Rng, seed: u64) -> Scenario {
         phases.sort();
         tags.push(format!("signals:{}", phases.join("/")));
     }
+    if r.chance(1, 10) {
+        // a SIGCONT from outside (job control, a supervisor) at some point of the request
+        let (trig, phase) = signal_trigger(r, n);
+        events.push(Event { trig, what: EventKind::ContinueProcess });
+        tags.push(format!("external-sigcont:{}", phase));
+    }
     if stop_fails && n > 1 && r.coin() {
         for _ in 0..r.range(1, 2) {
             let ti = r.range(1, n as u64 - 1) as usize;
